@@ -91,10 +91,33 @@ def _float_ref_ops(raw):
     return n
 
 
+def _mem_replace(raw):
+    """`dest = mem::replace(r, v)` is `dest = move *r; *r = move v` (its definition); `mem::swap(a, b)` likewise through a
+    temporary.  Written out, the place behind `r` is accessed directly and can be split by SROA."""
+    n = 0
+    for bb in raw['blocks']:
+        t = bb['term']
+        if t['t'] != 'call' or bb.get('cleanup') or t.get('target') is None:
+            continue
+        fn = t['func'].get('fn') or ''
+        if fn.endswith(('mem::replace', 'mem::replace::<T>')) and len(t['args']) == 2 and 'l' in t['args'][0] and \
+                not t['args'][0]['p'] and str(t['args'][0].get('ty', '')).startswith('&mut '):
+            r = t['args'][0]
+            ty = str(r['ty'])[5:]
+            span = t.get('span')
+            bb['stmts'].append({'s': 'assign', 'place': dict(t['dest']), 'rv': {'r': 'use', 'a': {'k': 'move', 'l': r['l'], 'p': ['deref'], 'ty': ty}},
+                                'span': span, 'syn': True})
+            bb['stmts'].append({'s': 'assign', 'place': {'l': r['l'], 'p': ['deref'], 'ty': ty}, 'rv': {'r': 'use', 'a': t['args'][1]},
+                                'span': span, 'syn': True})
+            bb['term'] = {'t': 'goto', 'target': t['target'], 'span': span, 'syn': 'mem::replace'}
+            n += 1
+    return n
+
+
 def rewrite(raw):
     """Rewrite every array-literal `vec!` expansion in this raw body (in place).  Returns the number rewritten."""
     blocks = raw['blocks']
-    n = _prim_defaults(raw) + _float_ref_ops(raw)
+    n = _prim_defaults(raw) + _float_ref_ops(raw) + _mem_replace(raw)
     for bi, bb in enumerate(blocks):
         t = bb['term']
         if t['t'] != 'call' or not (t['func'].get('fn') or '').endswith('box_assume_init_into_vec_unsafe') or bb.get('cleanup'):
